@@ -129,8 +129,9 @@ def _bits_to_int(v, ty):
 
 
 class Interp:
-    def __init__(self, F, call_handlers=None, max_steps=4000, max_depth=4):
+    def __init__(self, F, call_handlers=None, max_steps=4000, max_depth=4, default_sym=False):
         self.F = F
+        self.default_sym = default_sym
         self.handlers = call_handlers or []
         self.max_steps = max_steps
         self.max_depth = max_depth
@@ -207,8 +208,12 @@ class Interp:
     def _load(self, body, env, pl):
         cell = env.get(pl["l"])
         if cell is None:
-            raise Unsupported("read of unset local _%d in %s" % (pl["l"], body.path))
+            if not self.default_sym:
+                raise Unsupported("read of unset local _%d in %s" % (pl["l"], body.path))
+            cell = env[pl["l"]] = [Sym("_%d" % pl["l"])]
         v = cell[0]
+        if isinstance(v, Sym) and pl.get("p") and self.default_sym:
+            return Sym("%s.proj" % v.name)
         for e in pl.get("p", []):
             if e == "*":
                 if isinstance(v, Ref):
@@ -269,7 +274,9 @@ class Interp:
             if not pl.get("p"):
                 cell = env.get(pl["l"])
                 if cell is None:
-                    raise Unsupported("ref of unset local")
+                    if not self.default_sym:
+                        raise Unsupported("ref of unset local")
+                    cell = env[pl["l"]] = [Sym("_%d" % pl["l"])]
                 return Ref(cell)
             return Ref([self._load(body, env, pl)])
         if k == "cast":
